@@ -24,8 +24,7 @@ def stats_close(a, b, tol=1e-9):
     return abs(a - b) <= tol * max(1.0, abs(a), abs(b))
 
 
-def main():
-    run = Run('C04')
+def body(run):
     run.regenerate()
     run.build(extra_targets=['theories/Corr/CheckC04.v'])
     rng = run.rng('sched')
@@ -117,8 +116,7 @@ def main():
     run.trusted += ['Python with / try-finally / ThreadPoolExecutor / as_completed / Future.result semantics as encoded in Conc/IR.v, Conc/Sem.v',
                     'the GIL and GDAL internals are not modelled: the theorem is about the locking protocol, the trace check shows the code follows it',
                     'name map of translate/skeleton.py (which expressions denote the shared datasets and locks)']
-    run.finish()
 
 
 if __name__ == '__main__':
-    main()
+    Run('C04').guard(body)
